@@ -8,6 +8,7 @@ returned before the action started); runs that are not decided do not count as n
 from __future__ import annotations
 
 import random
+import re
 from typing import Any, Callable
 
 from . import dsched as D
@@ -32,7 +33,7 @@ def _record(res: UnitResult, pid: str, name: str, params: Any, c: D.Ctl, mode: s
         return
     if c.failed is not None:
         if on_failed == "violation":
-            res.violation("%s:%s:%s" % (pid, name, c.failed.split(":")[0].replace(" ", "-")), {"failed": c.failed, "params": params, "events": c.events[-30:]}, replay)
+            res.violation("%s:%s:%s" % (pid, re.sub(r"\d+", "", name), c.failed.split(":")[0].replace(" ", "-")), {"failed": c.failed, "params": params, "events": c.events[-30:]}, replay)
         else:
             res.inconclusive.append("%s: run failed: %s" % (name, c.failed[:600]))
         res.case(key=key, nontrivial=False)
